@@ -32,19 +32,22 @@ SYMNOTE = ("Trusted: the primitive table of the symbolic evaluator (pst/core/pri
 CHECKS.update({
     "C01": (True, "symbolic abstract interpretation to normal forms (cost-matrix blocks, tiling for all sizes), edge relation of the "
                   "threshold graph as membership predicates, the search followed on bounded candidate lists with a feasibility "
-                  "oracle, + CFG/def-use site rules on the threshold search",
+                  "oracle, + CFG/def-use site rules on the threshold search; typestate of one-shot iterators (IT-ONCE, run by every check on "
+                  "the code it analysed)",
             CLAUSE + "Decides BN-COST, BN-TILE (slice stores, paired index-array diagonal stores, pre-filled base with explicit "
             "corner), BN-CAND (every finite cell of the matrix is among the candidate thresholds — the parts handed to np.unique "
             "are enumerated positionally on small sizes), BN-GRAPH (the graph handed to the matching library is {(r, c): D[r, c] <= d} cell by cell — sets of columns "
             "are membership predicates, compared with the thresholded matrix on sizes up to 3+3 with d at / between / below the "
-            "entries), BN-FILTER/WARN, BN-THRESH, BN-PERFECT, BN-BISECT, BN-ORDER, BN-EMPTY: the "
+            "entries), BN-FILTER/WARN, BN-THRESH, BN-PERFECT, BN-BISECT, BN-ORDER, BN-EMPTY (an empty diagram and a diagram whose "
+            "points all have an infinite death are both stood in for by one diagonal point): the "
             "augmented matrix is the statement's cost model for every size, and the search's structural invariants hold. "
             "BN-SEARCH (BOUNDED): with the candidate thresholds replaced by a list of n <= 6 (thorough 9) ordered symbols and the "
             "matching library by a monotone feasibility oracle, the search — whatever its shape — returns the smallest feasible "
             "candidate for every n and every position of it. Declines: that Hopcroft-Karp finds a maximum matching, float ties.",
             SYMNOTE + "Hopcroft-Karp returns a maximum matching (dict with both directions).", "DESIGN.md §4 C01"),
     "C02": (True, "symbolic abstract interpretation to normal forms (rotation constants folded, blocks, solver wiring)",
-            CLAUSE + "Decides WS-COST, WS-TILE, WS-FILTER/WARN, WS-SOLVE, WS-EMPTY. Declines: optimality of the Hungarian "
+            CLAUSE + "Decides WS-COST, WS-TILE, WS-FILTER/WARN, WS-SOLVE, WS-EMPTY (empty and all-infinite diagrams), IT-ONCE (no one-shot "
+            "iterator is consumed twice on a path). Declines: optimality of the Hungarian "
             "solver, conditioning.", SYMNOTE + "linear_sum_assignment minimises over perfect assignments.",
             "DESIGN.md §4 C02"),
     "C07": (True, "units-of-measure (homogeneity degree) and translation-weight typing of the symbolically evaluated "
@@ -63,8 +66,9 @@ CHECKS.update({
     "C06": (True, "symbolic evaluation with the matching flag left symbolic (non-interference), provenance of row entries, "
                   "identity testing of derived index expressions; MT-TABLE: a matching table of any construction is evaluated "
                   "(its derived expressions, not the code) for small diagrams under every perfect matching the library may have "
-                  "accepted, forward and reverse look-ups included",
-            CLAUSE + "Decides MT-NONINT, MT-COST, MT-MINUS1, MT-DROP, MT-COVER, MT-PROV, MT-GRAPH (the matching is searched in the "
+                  "accepted, forward and reverse look-ups included; MT-ACCEPT: def-use pairing of the two updates of the search loop "
+                  "(matching kept / distance kept) and of the read of a growing holder",
+            CLAUSE + "Decides MT-ACCEPT (the matching reported was found at the distance reported), MT-NONINT, MT-COST, MT-MINUS1, MT-DROP, MT-COVER, MT-PROV, MT-GRAPH (the matching is searched in the "
             "thresholded matrix itself, not its transpose or a relabelling) for both functions, whether the rows are "
             "appended one by one or built as a whole table (arange / where / column_stack / masks / stacked slices: the "
             "obligations are read off the element expression of every part, the listing condition is the union of the parts' "
@@ -102,7 +106,9 @@ CHECKS.update({
                   "expanded) + symbolic evaluation of the plotting functions against an abstract axes: drawing calls logged "
                   "with reachability conditions, coordinate normal forms and style arguments, one call site split into arms "
                   "by the conditions inside its coordinates",
-            CLAUSE + "Decides PL-RECV, PL-IDX, PL-FOOT, PL-SEG, PL-MAX, PL-DGM, PL-LIM, PL-LAND. Declines: pixel-level "
+            CLAUSE + "Decides PL-RECV, PL-IDX, PL-FOOT, PL-SEG, PL-MAX, PL-DGM, PL-LIM, PL-LAND (both landscape plots evaluated on a 3-depth "
+            "landscape of symbols with a recording axes object, for a depth selection and the default: every line carries the "
+            "requested depth's own data and label). Declines: pixel-level "
             "rendering, single-precision rounding of offsets, legend contents, the 3-D landscape plots (they discard ax).",
             SYMNOTE + "Axes methods draw on their receiver; pyplot functions on the current axes.", "DESIGN.md §4 C20"),
 })
@@ -134,7 +140,8 @@ CHECKS.update({
 CHECKS.update({
     "C12": (True, "symbolic execution of the constructor, setters and fit on an imager with symbolic ranges/pixel size "
                   "(configuration histories of length 1-3), invariants decided on the derived attribute expressions; "
-                  "structural rule against truncated float quotients",
+                  "structural rule against truncated float quotients; boundary-value placement of the spans (a hair above / below / at a "
+                  "whole number of pixels) in the coverage test",
             CLAUSE + "Decides GE-SIB (extent = resolution*pixel, resolution exact/rounded), GE-MESH (resolution+1 nodes, step "
             "= pixel, starting at the covered range), GE-COVER (covers the request, excess < 1 pixel), GE-FIT. Declines: "
             "float-level containment when (hi-lo)/pixel is not exactly representable.",
@@ -145,10 +152,10 @@ CHECKS.update({
     "C10": (True, "symbolic evaluation of the segment integrator with a symbolic exponent; sign analysis with branch "
                   "refinement at every power site; degree typing with a symbolic exponent; NM-SHAPES / NM-SUP (bounded): the norms "
                   "evaluated on landscapes of given shapes (1-3 depths, 1-4 critical pairs, level segments) against the definition, "
-                  "whatever the traversal (nested loops, flat chain with seams, piece objects); site rules for wiring",
+                  "whatever the traversal (nested loops, flat chain with seams, piece objects); site rules for wiring; NM-DTYPE (dtype-inheritance dataflow over the functions reachable from the norm entry points)",
             CLAUSE + "Decides NM-LAZY (must-pass-through: every read of the lazily computed data in p_norm / sup_norm lies behind a call that "
             "always runs compute_landscape(), through the MRO), NM-SIGN, NM-FORM (summand = integral of |line|^p in all three arms), NM-HOM (degree 1), NM-ARMS, "
-            "NM-SUP, NM-WIRE. Declines: triangle inequality, stability vs bottleneck, nearly flat segments.",
+            "NM-SUP, NM-WIRE, NM-DTYPE (the critical pairs are not laid out in a buffer typed by the landscape's samples). Declines: triangle inequality, stability vs bottleneck, nearly flat segments.",
             SYMNOTE + "Abscissae strictly increasing along a depth; p >= 1.", "DESIGN.md §4 C10"),
 })
 
@@ -160,8 +167,9 @@ CHECKS.update({
             CLAUSE + "Decides LX-COPY, LX-SORT, LX-EDGE, LX-NOCOPY, LX-ITER, LX-DEG, LX-INSERT — necessary conditions of the sweep — and, "
             "BOUNDED, LX-SWEEP: for every weak ordering of the end-points of up to 3 bars (423 classes; plus 200 / thorough 1500 "
             "sampled classes of 4 bars) the sweep is followed with all its comparisons decided by the class and the critical "
-            "pairs it emits are the k-th largest tent at every depth (classes in which the repeated-bar shortcut runs are "
-            "reported under known finding K1c). The "
+            "pairs it emits are the k-th largest tent at every depth, and the sweep does not raise (the repeated-bar classes that fail "
+            "on the pinned tree are LISTED in pst/findings/k1c_classes.json and reported under known finding K1c; a failing class "
+            "that is not on the list is a new violation). The "
             "repeated-bar shortcut violates LX-NOCOPY/LX-ITER today: genuine, test-pinned defect, listed as known findings "
             "K1a/K1b/K1c (any other violation of the same rules is still reported). Declines: diagrams with more bars than the "
             "bound.",
